@@ -966,6 +966,23 @@ def materialize_model(case):
     return model, sample, sem
 
 
+def names_in_label(label, sem, i, lower=False):
+    """the label names variable i (its name and unit; the exact wording is not part of the property)"""
+    name = sem["names"][i].lower() if lower else sem["names"][i]
+    return name in label and sem["units"][i] in label
+
+
+def as_sample_arg(sample, sample_type):
+    """the `sample` argument as an ndarray / a list of rows / a DataFrame (the plot functions convert with np.asarray)"""
+    if sample is None or sample_type == "array":
+        return sample
+    if sample_type == "list":
+        return sample.tolist()
+    import pandas as pd
+
+    return pd.DataFrame(sample, columns=[f"c{j}" for j in range(sample.shape[1])])
+
+
 def curve_check(ck, tables, lines, checks, tag, xs_impl, ys_impl, a, b, num, leaf, what):
     """register: xs must be linspace(a,b,num) (model, bit exact), ys must be leaf(xs) (TABLE of direct call)"""
     with warnings.catch_warnings():
@@ -994,6 +1011,13 @@ def process_models(ck, cases):
             ck.count("models:fit_failed_on_subsample")
             continue
         semantics = sem if case.get("with_sem", True) else None
+        from virocon.plotting import get_default_semantics
+
+        sem_used = semantics if semantics is not None else get_default_semantics(model.n_dim)
+        sample_type = case.get("sample_type", "array")
+        # which optional arguments are used (par_rename, axes=) is a function of the case, so that a replay repeats it
+        variant = int(case.get("variant", case["gen"][1] if isinstance(case.get("gen"), list) else 0))
+        sample_arg = as_sample_arg(sample, sample_type)
         bad = []      # (entry, predicate, detail)
         lines = []    # driver lines
         checks = []   # curve checks in the order of the RUN linspace / RUN curve pairs
@@ -1005,12 +1029,15 @@ def process_models(ck, cases):
                 warnings.simplefilter("ignore")
                 # par_rename only changes axis labels; the curves and estimates must be the same with and without it
                 ren = {}
-                if ck.evaluations % 2:
+                if variant % 2:
                     for dist in model.distributions:
                         for par in getattr(dist, "conditional_parameters", {}):
                             ren[par] = "renamed " + par
+                    if variant % 4 == 3 and len(ren) >= 2:
+                        del ren[sorted(ren)[0]]   # only some of the parameters renamed
+                ck.count("models:par_rename=" + ("none" if not ren else "given"))
                 n_par = sum(len(model.distributions[d].conditional_parameters) for d in cond_dims)
-                if ck.evaluations % 3 == 1 and n_par >= 2:
+                if variant % 3 == 1 and n_par >= 2:
                     # axes supplied by the caller: parameter k is drawn into axes[k]
                     _, given = plt.subplots(1, n_par)
                     axes = vc.plot_dependence_functions(model, semantics, par_rename=ren, axes=list(given))
@@ -1027,6 +1054,15 @@ def process_models(ck, cases):
                 for par, dep in dist.conditional_parameters.items():
                     ax = axes[k]
                     k += 1
+                    # the abscissa is the conditioning variable, the ordinate the parameter (renamed iff in par_rename)
+                    ci = model.conditional_on[dim]
+                    if not names_in_label(ax.get_xlabel(), sem_used, ci) or sem_used["symbols"][ci] not in ax.get_xlabel():
+                        bad.append(("plot_dependence_functions", "xlabel_names_conditioning_variable",
+                                    f"dim {dim} parameter {par}: xlabel {ax.get_xlabel()!r}, conditioning variable {ci} is "
+                                    f"{sem_used['names'][ci]!r} [{sem_used['symbols'][ci]}] ({sem_used['units'][ci]})"))
+                    if (ax.get_ylabel() != ren[par]) if par in ren else (par not in ax.get_ylabel()):
+                        bad.append(("plot_dependence_functions", "ylabel_parameter_renamed_iff",
+                                    f"dim {dim} parameter {par}: ylabel {ax.get_ylabel()!r}, par_rename {ren!r}"))
                     if len(ax.lines) != 1:
                         bad.append(("plot_dependence_functions", "one_curve_per_axes", f"{len(ax.lines)} lines for {par}"))
                         continue
@@ -1056,10 +1092,10 @@ def process_models(ck, cases):
             try:
                 with Recorder() as rec, warnings.catch_warnings():
                     warnings.simplefilter("ignore")
-                    figs, axes_list = vc.plot_histograms_of_interval_distributions(model, sample, semantics)
+                    figs, axes_list = vc.plot_histograms_of_interval_distributions(model, sample_arg, semantics)
                     # plot_pdf=False: the same histograms, no density curve
                     with Recorder() as rec2:
-                        _, axes_nopdf = vc.plot_histograms_of_interval_distributions(model, sample, semantics, plot_pdf=False)
+                        _, axes_nopdf = vc.plot_histograms_of_interval_distributions(model, sample_arg, semantics, plot_pdf=False)
                     flat_np = []
                     for a in axes_nopdf:
                         flat_np += list(a) if isinstance(a, (list, tuple, np.ndarray)) else [a]
@@ -1089,6 +1125,9 @@ def process_models(ck, cases):
                         if hx is None or not same_vals(hx, data) or dens.get(id(ax)) is not True:
                             bad.append(("plot_histograms_of_interval_distributions", "histogram_of_interval_data",
                                         f"dim {dim} interval {i}: hist got {None if hx is None else hx.shape} expected {data.shape}"))
+                        if not names_in_label(ax.get_xlabel(), sem_used, dim) or sem_used["symbols"][dim] not in ax.get_xlabel():
+                            bad.append(("plot_histograms_of_interval_distributions", "xlabel_names_variable",
+                                        f"dim {dim} interval {i}: xlabel {ax.get_xlabel()!r}, variable is {sem_used['names'][dim]!r}"))
                         if f"n={len(data)}" not in ax.get_title():
                             bad.append(("plot_histograms_of_interval_distributions", "title_counts_data", ax.get_title()))
                         if len(ax.lines) != 1:
@@ -1106,27 +1145,68 @@ def process_models(ck, cases):
             # -- plot_2D_isodensity -------------------------------------------------------
             for swap in ((False, True) if model.n_dim == 2 else ()):
                 try:
-                    n_grid = int(case.get("n_grid", 24))
+                    # configuration of this call: levels given / automatic, axes None / supplied (not pyplot's current
+                    # one), n_grid_steps given / default (250)
+                    cfg = int(case.get("iso_cfg", 0))
+                    lv_given = (cfg % 2 == 0) != swap
+                    ax_given = (cfg // 2 % 2 == 0) == swap
+                    n_grid = case.get("n_grid", 24)
+                    if n_grid is not None and swap and case.get("n_grid_default_when_swapped"):
+                        n_grid = None
+                    kw = {} if n_grid is None else {"n_grid_steps": int(n_grid)}
+                    n_grid_eff = 250 if n_grid is None else int(n_grid)
                     limits = case.get("limits")
+                    lv = [1e-4, 1e-3, 1e-2] if lv_given else None
+                    ck.count("iso:levels=%s,ax=%s,n_grid=%s,swap=%s" % ("given" if lv_given else "auto", "given" if ax_given else "None",
+                                                                      "default" if n_grid is None else "given", swap))
+                    ck.count("iso:sample=" + sample_type)
+                    plt.close("all")
                     with Recorder() as rec, warnings.catch_warnings():
                         warnings.simplefilter("ignore")
-                        if swap:
+                        if ax_given:
                             # an axes supplied by the caller that is NOT pyplot's current axes (left panel of a
                             # two-panel figure): everything must be drawn into it
-                            _, (ax_given, _ax_other) = plt.subplots(1, 2)
-                            ax = vc.plot_2D_isodensity(model, sample, semantics, swap_axis=swap, limits=limits,
-                                                       n_grid_steps=n_grid, ax=ax_given)
-                            if ax is not ax_given:
+                            _, (ax_given_obj, ax_other) = plt.subplots(1, 2)
+                            ax = vc.plot_2D_isodensity(model, sample_arg, semantics, swap_axis=swap, limits=limits,
+                                                       levels=lv, ax=ax_given_obj, **kw)
+                            if ax is not ax_given_obj:
                                 bad.append(("plot_2D_isodensity", "draws_into_given_axes", "returned axes is not the supplied one"))
                         else:
-                            # explicit density levels: exactly these must be handed to the contour call
-                            lv = [1e-4, 1e-3, 1e-2] if case.get("explicit_levels", True) else None
-                            ax = vc.plot_2D_isodensity(model, sample, semantics, swap_axis=swap, limits=limits,
-                                                       n_grid_steps=n_grid, levels=lv)
-                            if lv is not None and len(rec.contour) == 1:
-                                got_lv = rec.contour[0][2].get("levels")
-                                if got_lv is None or [float(v) for v in got_lv] != lv:
-                                    bad.append(("plot_2D_isodensity", "levels_as_supplied", f"levels {got_lv!r} instead of {lv!r}"))
+                            _, ax_other = plt.subplots()
+                            ax = vc.plot_2D_isodensity(model, sample_arg, semantics, swap_axis=swap, limits=limits,
+                                                       levels=lv, **kw)
+                            if ax is ax_other:
+                                bad.append(("plot_2D_isodensity", "draws_into_given_axes",
+                                            "ax=None: drew into an axes that existed before the call instead of a new figure"))
+                    if ax is not ax_other and (len(ax_other.lines) + len(ax_other.collections) or ax_other.get_legend() is not None
+                                               or ax_other.get_xlabel() or ax_other.get_ylabel()):
+                        bad.append(("plot_2D_isodensity", "draws_into_given_axes",
+                                    f"swap_axis={swap}: artists / legend / labels ended up in another axes than the one supplied / returned"))
+                    if len(rec.contour) == 1:
+                        got_lv = rec.contour[0][2].get("levels")
+                        got_lv = None if got_lv is None else [float(v) for v in np.asarray(got_lv, dtype=float).ravel()]
+                        if lv is not None and got_lv != lv:
+                            bad.append(("plot_2D_isodensity", "levels_as_supplied", f"levels {got_lv!r} instead of {lv!r}"))
+                        if lv is None and (got_lv is None or len(got_lv) == 0 or any(v <= 0 for v in got_lv)
+                                           or any(b <= a for a, b in zip(got_lv, got_lv[1:]))):
+                            bad.append(("plot_2D_isodensity", "automatic_levels_increasing_positive", f"levels {got_lv!r}"))
+                        # the legend says which density each line stands for: label i <-> level i
+                        leg = ax.get_legend()
+                        labels = [t.get_text() for t in leg.get_texts()] if leg is not None else None
+                        if got_lv is not None and labels is not None:
+                            try:
+                                lab_v = [float(t) for t in labels]
+                            except ValueError:
+                                lab_v = None
+                            if lab_v is not None and (len(lab_v) != len(got_lv) or any(
+                                    abs(a - b) > 0.06 * abs(b) for a, b in zip(lab_v, got_lv))):
+                                bad.append(("plot_2D_isodensity", "legend_labels_are_the_levels_drawn",
+                                            f"swap_axis={swap}: legend {labels!r} for levels {got_lv!r}"))
+                            elif lab_v is not None:
+                                ck.count("iso:legend_labels_checked")
+                    if ax.get_xlabel() != label_of(sem_used, 1 if swap else 0) or ax.get_ylabel() != label_of(sem_used, 0 if swap else 1):
+                        bad.append(("plot_2D_isodensity", "axis_labels_swap_iff",
+                                    f"swap_axis={swap}: xlabel {ax.get_xlabel()!r} ylabel {ax.get_ylabel()!r}"))
                     if len(rec.contour) == 1 and rec.contour[0][0] is not ax:
                         bad.append(("plot_2D_isodensity", "draws_into_given_axes",
                                     f"swap_axis={swap}: the isodensity lines were drawn into another axes than the one supplied / returned"))
@@ -1158,7 +1238,9 @@ def process_models(ck, cases):
                             lo1, hi1 = min(sample[:, 0]) - 0.05 * r1, max(sample[:, 0]) + 0.05 * r1
                             lo2, hi2 = min(sample[:, 1]) - 0.05 * r2, max(sample[:, 1]) + 0.05 * r2
                         ok = (np.isclose(v1.min(), lo1) and np.isclose(v1.max(), hi1)
-                              and np.isclose(v2.min(), lo2) and np.isclose(v2.max(), hi2) and Z.shape == (n_grid, n_grid))
+                              and np.isclose(v2.min(), lo2) and np.isclose(v2.max(), hi2)
+                              and (Z.shape == (n_grid_eff, n_grid_eff) if n_grid is not None
+                                   else (Z.ndim == 2 and Z.shape[0] == Z.shape[1] >= 2)))
                         if not ok:
                             bad.append(("plot_2D_isodensity", "grid_covers_limits", f"swap_axis={swap}"))
                         # model: Z is the curve of the pdf leaf over the grid nodes (uninterpreted function of two arguments)
@@ -1176,16 +1258,16 @@ def process_models(ck, cases):
             try:
                 with warnings.catch_warnings():
                     warnings.simplefilter("ignore")
-                    if ck.evaluations % 2:
+                    if (variant // 2) % 2:
                         # axes supplied by the caller (not pyplot's current axes): variable i is drawn into axes[i]
                         _, given = plt.subplots(1, model.n_dim + 1)
                         given = list(given[: model.n_dim])
-                        axes = vc.plot_marginal_quantiles(model, sample, semantics, axes=given)
+                        axes = vc.plot_marginal_quantiles(model, sample_arg, semantics, axes=given)
                         if len(axes) != model.n_dim or any(a is not g for a, g in zip(axes, given)):
                             bad.append(("plot_marginal_quantiles", "draws_into_given_axes", "returned axes are not the supplied ones"))
                         ck.count("models:quantile_axes_supplied")
                     else:
-                        axes = vc.plot_marginal_quantiles(model, sample, semantics)
+                        axes = vc.plot_marginal_quantiles(model, sample_arg, semantics)
                 n = len(sample)
                 osm = sts._morestats._calc_uniform_order_statistic_medians(n)
                 for dim in range(model.n_dim):
@@ -1194,6 +1276,10 @@ def process_models(ck, cases):
                     ys = np.asarray(l0.get_ydata(orig=False), dtype=float)
                     if not same_vals(ys, np.sort(sample[:, dim])):
                         bad.append(("plot_marginal_quantiles", "ordered_sample_values", f"dim {dim}"))
+                    for which, lab in (("xlabel", axes[dim].get_xlabel()), ("ylabel", axes[dim].get_ylabel())):
+                        if not names_in_label(lab, sem_used, dim, lower=True):
+                            bad.append(("plot_marginal_quantiles", "labels_name_variable",
+                                        f"dim {dim}: {which} {lab!r}, variable is {sem_used['names'][dim]!r} ({sem_used['units'][dim]})"))
                     if model.conditional_on[dim] is None:
                         want = np.asarray(model.marginal_icdf(osm, dim), dtype=float)
                         if not same_vals(xs, want):
@@ -1245,14 +1331,15 @@ def model_cases(rng, seed, n_cases, start):
         yield {"kind": "models", "gen": [seed, start + i], "model": names[i % len(names)], "fitted": True,
                "n_sample": int(rng.choice([800, 1500, 3000])), "with_sem": bool(rng.integers(0, 4)),
                "n_grid": int(rng.choice([12, 24, 31])),
-               "limits": None if rng.integers(0, 2) else [[0.0, float(rng.uniform(20, 40))], [0.0, float(rng.uniform(12, 25))]]}
+               "limits": None if rng.integers(0, 2) else [[0.0, float(rng.uniform(20, 40))], [0.0, float(rng.uniform(12, 25))]],
+               "iso_cfg": i % 4, "n_grid_default_when_swapped": i % 3 == 1, "sample_type": ["array", "frame", "list"][i % 3]}
     yield {"kind": "models", "gen": [seed, start + n_cases], "model": "VanemBG", "fitted": False, "with_sem": True}
     yield {"kind": "models", "gen": [seed, start + n_cases + 1], "model": "Chain3D", "fitted": False, "with_sem": True}
     yield {"kind": "models", "gen": [seed, start + n_cases + 3], "model": "Chain3D", "fitted": False, "with_sem": True, "shape": "2+1"}
     yield {"kind": "models", "gen": [seed, start + n_cases + 4], "model": "Chain3D", "fitted": False, "with_sem": bool(rng.integers(0, 2)),
            "shape": "1+2"}
     yield {"kind": "models", "gen": [seed, start + n_cases + 2], "model": "Chain3D", "fitted": True, "with_sem": bool(rng.integers(0, 2)),
-           "n_sample": int(rng.choice([1000, 2000]))}
+           "n_sample": int(rng.choice([1000, 2000])), "sample_type": "frame"}
 
 
 # ---------------------------------------------------------------------------
